@@ -467,7 +467,7 @@ def _bm_sym_cfgs(tier):
             k, n = enc.generator_matrix.shape
             t = capability(enc, c)[0]
             npat = sum(1 for w in range(t + 1) for _ in itertools.combinations(range(n), w))
-            if (1 << k) * npat <= (600 if tier == "quick" else 20000):
+            if (1 << k) * npat <= (600 if tier == "quick" else 4000):  # every path runs the real Berlekamp-Massey + Chien search (~0.1 s): 4000 paths ~ 7 min per configuration
                 out.append(c)
     return out
 
